@@ -29,7 +29,7 @@ PLAIN = [
 ]
 REFS = ["JP {L}", "JPZ {L}", "CALL {L}", "CALLF {L}", "JPF {L}", "MV X, {L}", "MV BA, {L}", "MV A, [{L}]", "defw {L}", "defl {L}", "defb {L}, 1",
         "jp {l}", "MV A, [X+{L}]", "MV [(BP+0x10)-{L}], A"]
-LOCS = ["SECTION code", "SECTION data", "SECTION bss", ".ORG 0x100", ".ORG 0x10100", ".ORG 0x1FFFD", ".ORG {L}"]
+LOCS = ["SECTION code", "SECTION data", "SECTION bss", "SECTION rodata", ".ORG 0x100", ".ORG 0x10100", ".ORG 0x1FFFD", ".ORG {L}"]
 
 
 def palette(full: bool) -> List[Tuple[str, str]]:
@@ -107,6 +107,12 @@ def reference(plain: List[str], got_syms: Optional[Dict[str, int]]) -> Tuple[Dic
             low = st.lower()
             if low.startswith("section"):
                 sec = low.split()[1]
+                if sec not in ptr and sec != "bss":
+                    # a section name of the user's own: the statement does not say where it starts, so (like bss) its start is taken
+                    # from the label the assembler put on the SECTION line; everything after it must then be consistent with that
+                    if got_syms is None or f"L{i}" not in got_syms:
+                        raise RefError("user-section-rejected-or-unlabelled")
+                    ptr[sec] = got_syms[f"L{i}"]
             elif low.startswith(".org"):
                 arg = st.split(None, 1)[1]
                 if re.fullmatch(r"L\d+", arg):
@@ -293,7 +299,7 @@ def all_programs(thorough: bool, seed: int) -> List[Tuple]:
     return progs
 
 
-SMALL = ("NOP", ".ORG 0x1FFFD", "MV X, 0x12345", "defb 1, 2, 3", "defs 3", "SECTION data", "SECTION bss", "SECTION code",
+SMALL = ("NOP", "SECTION rodata", ".ORG 0x1FFFD", "MV X, 0x12345", "defb 1, 2, 3", "defs 3", "SECTION data", "SECTION bss", "SECTION code",
          ".ORG 0x100", ".ORG 0x10100", "JP {L}", "CALLF {L}", "MV X, {L}", "defw {L}", ".ORG {L}")
 
 
